@@ -17,13 +17,19 @@ import (
 	"os"
 	"path/filepath"
 	"sort"
+	"strconv"
 	"strings"
+	"time"
 
 	"github.com/klauspost/compress/snappy"
 
 	"github.com/quay/claircore"
 	"github.com/quay/claircore/internal/matcher"
+	"github.com/quay/claircore/libindex"
+	"github.com/quay/claircore/libvuln"
 	"github.com/quay/claircore/libvuln/driver"
+	"github.com/quay/claircore/libvuln/updates"
+	"github.com/quay/claircore/verifharness/internal/memstore"
 	"github.com/quay/claircore/rhel"
 	"github.com/quay/claircore/rhel/vex"
 )
@@ -256,6 +262,202 @@ func (h *harness) sectionRhel() {
 		un, err := reportedNames(mkIR(other[0], "0:0.0.1-1"))
 		if err == nil && len(un) != 0 {
 			r.Fail("", key+": reported for a package from the unrelated repository cpe:/a:redhat:verif_unrelated_product:1")
+		}
+	}
+	if st.sqlErr != nil {
+		r.Fail("", "the SQL text of buildGetQuery is no longer of the known shape: "+st.sqlErr.Error())
+	}
+}
+
+// sectionRhelFull is the RHEL join at the property's observation point: the
+// image (redhat-release, a content manifest naming content sets, an rpm
+// database written by the harness) goes through the REAL libindex with its
+// default ecosystems (rpm.Scanner, rhel.DistributionScanner,
+// rhel.RepositoryScanner over the served repository-to-cpe mapping,
+// rhel.Coalescer next to the rpm ecosystem's), and libvuln.Scan with the
+// default matchers runs over a store holding the advisories the REAL vex
+// updater parsed from the repository's VEX test feed.
+func (h *harness) sectionRhelFull() {
+	r := h.r
+	ctx, cancel := context.WithTimeout(h.ctx, 3*time.Minute)
+	defer cancel()
+	defer func() {
+		if ctx.Err() != nil {
+			r.Fail("", "rhel-full: libindex / libvuln did not finish within three minutes (hang)")
+		}
+	}()
+	vs, err := vexVulns(ctx)
+	if err != nil {
+		return // reported by sectionRhel
+	}
+	sort.Slice(vs, func(i, j int) bool {
+		a, b := vs[i], vs[j]
+		ka := a.Name + "\x00" + a.Package.Name + "\x00" + a.Package.Module + "\x00" + a.FixedInVersion + "\x00" + a.Repo.Name + "\x00" + a.Package.Arch
+		kb := b.Name + "\x00" + b.Package.Name + "\x00" + b.Package.Module + "\x00" + b.FixedInVersion + "\x00" + b.Repo.Name + "\x00" + b.Package.Arch
+		return ka < kb
+	})
+	var cands []*claircore.Vulnerability
+	for _, v := range vs {
+		if v.Repo != nil && v.Package != nil && v.Package.Name != "" && v.Repo.Key == "rhel-cpe-repository" && !strings.ContainsAny(v.Package.Name, " /") {
+			cands = append(cands, v)
+		}
+	}
+	if len(cands) == 0 {
+		return
+	}
+	n := h.cfg.N(25, 150)
+	var chosen []*claircore.Vulnerability
+	mapping := map[string]any{"verif-cs-other": map[string]any{"cpes": []string{"cpe:/a:redhat:verif_unrelated_product:1"}}}
+	for i := 0; i < n; i++ {
+		v := cands[h.rnd.Intn(len(cands))]
+		chosen = append(chosen, v)
+		mapping[fmt.Sprintf("verif-cs-%d", i)] = map[string]any{"cpes": []string{v.Repo.Name}}
+	}
+	mb, _ := json.Marshal(map[string]any{"data": mapping})
+	wi := newWorld()
+	wi.put("security.access.redhat.com/data/metrics/repository-to-cpe.json", 200, "application/json", mb, "last-modified", "Mon, 01 Jan 2024 00:00:00 GMT")
+	ar := &memArena{layers: map[string][]byte{}}
+	li, err := libindex.New(ctx, &libindex.Options{
+		Store: memstore.New(), Locker: updates.NewLocalLockSource(), FetchArena: ar, LayerScanConcurrency: 2,
+	}, wi.client())
+	if err != nil {
+		r.Fail("", "rhel-full: libindex.New: "+err.Error())
+		return
+	}
+	defer li.Close(ctx)
+	st := newFullStore()
+	st.byUpdater["rhel-vex"] = vs
+	st.rebuild()
+	lv, err := libvuln.New(ctx, &libvuln.Options{
+		Store: st, Locker: updates.NewLocalLockSource(), Client: wi.client(),
+		UpdaterSets: []string{}, DisableBackgroundUpdates: true, UpdateRetention: 2,
+	})
+	if err != nil {
+		r.Fail("", "rhel-full: libvuln.New: "+err.Error())
+		return
+	}
+	defer lv.Close(ctx)
+
+	manifest := func(sets ...string) []byte {
+		q := make([]string, len(sets))
+		for i, s := range sets {
+			q[i] = fmt.Sprintf("%q", s)
+		}
+		return []byte(`{"metadata":{"icm_version":1,"icm_spec":"x","image_layer_index":0},"content_sets":[` + strings.Join(q, ",") + `],"image_contents":[]}`)
+	}
+	for i, v := range chosen {
+		if r.Stop() {
+			return
+		}
+		key := fmt.Sprintf("rhel-full advisory=%s package=%s module=%q fixed=%q repo=%s arch=%s/%v", v.Name, v.Package.Name, v.Package.Module, v.FixedInVersion, v.Repo.Name, v.Package.Arch, v.ArchOperation)
+		bin, src := v.Package.Name, v.Package.Name+"-verifsrc"
+		if v.Package.Kind == claircore.SOURCE {
+			bin, src = v.Package.Name+"-verifbin", v.Package.Name
+		}
+		label := ""
+		if v.Package.Module != "" {
+			label = v.Package.Module + ":8090020231130:0a1b2c3d"
+		}
+		mkDB := func(evr string) ([]byte, bool) {
+			rec := rpmRec{name: bin, arch: archFor(v), module: label}
+			if j := strings.IndexByte(evr, ':'); j >= 0 {
+				e, err := strconv.Atoi(evr[:j])
+				if err != nil {
+					return nil, false
+				}
+				rec.epoch = int32(e)
+				evr = evr[j+1:]
+			}
+			rec.version, rec.release = splitVR(evr)
+			rec.srpm = src + "-" + rec.version + "-" + rec.release + ".src.rpm"
+			if strings.ContainsAny(rec.version, "-") || rec.version == "" || rec.release == "" {
+				return nil, false
+			}
+			db, err := rpmSqliteDB([]rpmRec{{name: "verif-filler", version: "1.0", release: "1", arch: "noarch", srpm: "verif-filler-1.0-1.src.rpm"}, rec})
+			if err != nil {
+				r.Fail("", "rhel-full: writing an rpm database: "+err.Error())
+				return nil, false
+			}
+			return db, true
+		}
+		reported := func(what string, layers ...map[string][]byte) (map[string]bool, bool) {
+			ir, err := li.Index(ctx, ar.manifestOf(layers...))
+			if err != nil || ir == nil || !ir.Success {
+				e := ""
+				if ir != nil {
+					e = ir.Err
+				}
+				r.Fail("", fmt.Sprintf("%s: %s: libindex.Index failed: %v %s", key, what, err, e))
+				return nil, false
+			}
+			found := false
+			for _, p := range ir.Packages {
+				if p.Name == bin {
+					found = true
+				}
+			}
+			if !found {
+				r.Fail("", fmt.Sprintf("%s: %s: libindex did not find the package %s written to the rpm database", key, what, bin))
+				return nil, false
+			}
+			vr, err := lv.Scan(ctx, ir)
+			if err != nil {
+				r.Fail("", fmt.Sprintf("%s: %s: libvuln.Scan failed: %v", key, what, err))
+				return nil, false
+			}
+			out := map[string]bool{}
+			for id, p := range vr.Packages {
+				if p.Name != bin {
+					continue
+				}
+				for _, vid := range vr.PackageVulnerabilities[id] {
+					if x := vr.Vulnerabilities[vid]; x != nil && x.Repo != nil {
+						out[x.Name+"|"+x.FixedInVersion+"|"+x.Repo.Name] = true
+					}
+				}
+			}
+			return out, true
+		}
+		r.Case(key, true)
+		r.Count("full:rhel")
+		want := v.Name + "|" + v.FixedInVersion + "|" + v.Repo.Name
+		rel := map[string][]byte{"etc/redhat-release": []byte("Red Hat Enterprise Linux release 8.9 (Ootpa)\n")}
+		cs := fmt.Sprintf("verif-cs-%d", i)
+		withM := func(m []byte, extra map[string][]byte) map[string][]byte {
+			out := map[string][]byte{"root/buildinfo/content_manifests/verif-1-1.json": m}
+			for k, b := range rel {
+				out[k] = b
+			}
+			for k, b := range extra {
+				out[k] = b
+			}
+			return out
+		}
+		low, ok := mkDB("0.0.1-1")
+		if !ok {
+			continue
+		}
+		dbf := map[string][]byte{"var/lib/rpm/rpmdb.sqlite": low}
+		if got, ok := reported("one layer", withM(manifest(cs), dbf)); ok && !got[want] {
+			r.Fail("", key+": version 0.0.1-1 installed in an image whose content manifest names a content set mapped to the advisory's CPE: not reported by libvuln.Scan")
+		}
+		if got, ok := reported("packages in a later layer", withM(manifest(cs), nil), dbf); ok && !got[want] {
+			r.Fail("", key+": the rpm database is in a layer above the one with the content manifest: not reported by libvuln.Scan")
+		}
+		for _, sets := range [][]string{{"verif-cs-other", cs}, {cs, "verif-cs-other"}} {
+			if got, ok := reported("two content sets", withM(manifest(sets...), dbf)); ok && !got[want] {
+				r.Fail("", fmt.Sprintf("%s: the content manifest names the content sets %v (the other one maps to cpe:/a:redhat:verif_unrelated_product:1): not reported by libvuln.Scan", key, sets))
+			}
+		}
+		if got, ok := reported("unrelated content set", withM(manifest("verif-cs-other"), dbf)); ok && len(got) != 0 {
+			r.Fail("", fmt.Sprintf("%s: reported %v for an image whose only content set maps to cpe:/a:redhat:verif_unrelated_product:1", key, got))
+		}
+		if v.FixedInVersion != "" {
+			if fixed, ok := mkDB(v.FixedInVersion); ok {
+				if got, ok := reported("fixed version", withM(manifest(cs), map[string][]byte{"var/lib/rpm/rpmdb.sqlite": fixed})); ok && got[want] {
+					r.Fail("", key+": the fixed version itself is installed and the advisory is reported by libvuln.Scan")
+				}
+			}
 		}
 	}
 	if st.sqlErr != nil {
